@@ -103,7 +103,7 @@ Qed.
 
 (* ---- witnesses ---- *)
 Definition c20_cfg : config :=
-  (mkConfig POpenID [GRefreshToken; GAuthorizationCode] [] ["code"] [] false 600 300 true true 600 false false "" [] false false 0 false
+  (mkConfig POpenID [GRefreshToken; GAuthorizationCode] [] ["code"] [] false 600 300 IssueAlways true 600 false false "" [] false false 0 false
            false false false false false 0 false false false false false false false false false
            false false false false false false false "" false []) <| cf_introspection := true |>.
 Definition c20_client : client :=
